@@ -4,6 +4,7 @@
 -/
 import Lean.Data.Json
 import Lungo.Model.Json
+import Lungo.Model.Access
 open Lean
 namespace Driver
 
@@ -12,5 +13,19 @@ abbrev Op := Json → Except String Json
 def okJ (j : Json) : Json := Json.mkObj [("ok", j)]
 def errJ (cls : String) : Json := Json.mkObj [("err", cls)]
 def panicJ (site : String) : Json := Json.mkObj [("panic", site)]
+
+end Driver
+
+namespace Driver
+open Lungo
+
+/-- canonical reply for a model result -/
+def resJ {α} (f : α → Json) : Res α → Json
+  | .ok a => okJ (f a)
+  | .error .err => errJ "err"
+  | .error .dup => errJ "dup"
+  | .error .notMatched => errJ "notMatched"
+  | .error (.panic site) => panicJ site
+  | .error (.unmodelled w) => Json.mkObj [("unmodelled", w)]
 
 end Driver
